@@ -790,6 +790,69 @@ def check_operation(inp):
         return [f'{kind} raised {type(e).__name__}: {e}']
     return fails
 
+
+# ------------------------------------------------------------------------------------------- C01
+
+def random_state_input(rng, cls, L, d=2, Dmax=3, qrange=(-1, 2), real=False):
+    import pytenet as ptn
+    qd = rng.integers(*qrange, size=d)
+    D = [1] + [int(rng.integers(1, Dmax + 1)) for _ in range(L - 1)] + [1]
+    qD = [rng.integers(*qrange, size=n) for n in D]
+    x = (ptn.MPS if cls == 'mps' else ptn.MPO)(qd, qD, fill='random', rng=rng)
+    A = [a.real.tolist() if real else a.tolist() for a in x.A]
+    return dict(cls=cls, x=dict(qd=qd.tolist(), qD=[q.tolist() for q in qD], A=A))
+
+
+def _iso_fail(T, kind, mode, i):
+    s = T.shape
+    if kind == 'mps':
+        M = T.reshape((s[0] * s[1], s[2])) if mode == 'left' else T.transpose((0, 2, 1)).reshape((s[0] * s[2], s[1]))
+    else:
+        M = T.reshape((s[0] * s[1] * s[2], s[3])) if mode == 'left' else T.transpose((0, 1, 3, 2)).reshape((s[0] * s[1] * s[3], s[2]))
+    if not close(M.conj().T @ M, np.identity(M.shape[1])):
+        return [f'site tensor {i} is not an isometry ({mode})']
+    return []
+
+
+@check('orthonormalize')
+def check_orthonormalize(inp):
+    kind, mode = inp['cls'], inp['mode']
+    x = _obj_from_json(inp['x'], kind)
+    L = len(x.A)
+    old = _dense(x, kind)
+    old_dims = list(x.bond_dims)
+    old_q = [x.qD[0].copy(), x.qD[-1].copy()]
+    pd = len(x.qd) if kind == 'mps' else len(x.qd) ** 2
+    try:
+        nrm = x.orthonormalize(mode=mode)
+    except Exception as e:
+        return [f'orthonormalize raised {type(e).__name__}: {e}']
+    fails = []
+    sc = float(np.linalg.norm(old))
+    if not (nrm >= 0):
+        fails.append(f'returned factor {nrm} is negative')
+    if abs(nrm - sc) > TOL * max(1.0, sc):
+        fails.append(f'returned factor {nrm} != Frobenius norm {sc}')
+    fails += _invariant(x, kind, 'result')
+    if fails:
+        return fails
+    new = _dense(x, kind)
+    if not close(nrm * new, old, sc):
+        fails.append('factor * dense(new) != dense(old)')
+    for i in range(L):
+        fails += _iso_fail(x.A[i], kind, mode, i)
+    if sc > 0 and abs(np.linalg.norm(new) - 1) > 1e-8:
+        fails.append('result does not have unit norm')
+    nd = x.bond_dims
+    for i in range(L):
+        if mode == 'left' and nd[i + 1] > min(pd * nd[i], old_dims[i + 1]):
+            fails.append(f'bond {i + 1} larger than the neighbouring dimensions allow')
+        if mode == 'right' and nd[i] > min(pd * nd[i + 1], old_dims[i]):
+            fails.append(f'bond {i} larger than the neighbouring dimensions allow')
+    if sc > 1e-12 and (not np.array_equal(x.qD[0], old_q[0]) or not np.array_equal(x.qD[-1], old_q[1])):
+        fails.append('boundary quantum numbers of a non-zero state changed')
+    return fails
+
 # -------------------------------------------------------------------------------------------
 
 def main():
